@@ -11,6 +11,9 @@ import (
 	"fmt"
 	"os"
 	"runtime"
+
+	"google.golang.org/protobuf/proto"
+	"google.golang.org/protobuf/reflect/protoreflect"
 )
 
 type replay struct {
@@ -182,3 +185,45 @@ func Setenv(k, v string)       { os.Setenv(k, v) }
 func Replaying() bool          { return true }
 func BudgetSteps(n int64)      {}
 func BudgetDepth(n int)        {}
+
+// ProtoEqualNoCtx reports whether two protobuf messages are equal once every
+// source_context / source_contexts field (recorded source locations) is dropped.
+// Under the executor this is a structural comparison of the generated structs.
+func ProtoEqualNoCtx(a, b proto.Message) bool {
+	if a == nil || b == nil {
+		return a == nil && b == nil
+	}
+	ca, cb := proto.Clone(a), proto.Clone(b)
+	stripCtx(ca.ProtoReflect())
+	stripCtx(cb.ProtoReflect())
+	return proto.Equal(ca, cb)
+}
+
+func stripCtx(m protoreflect.Message) {
+	m.Range(func(fd protoreflect.FieldDescriptor, v protoreflect.Value) bool {
+		name := string(fd.Name())
+		if name == "source_context" || name == "source_contexts" {
+			m.Clear(fd)
+			return true
+		}
+		switch {
+		case fd.IsMap():
+			if fd.MapValue().Message() != nil {
+				v.Map().Range(func(_ protoreflect.MapKey, mv protoreflect.Value) bool {
+					stripCtx(mv.Message())
+					return true
+				})
+			}
+		case fd.IsList():
+			if fd.Message() != nil {
+				l := v.List()
+				for i := 0; i < l.Len(); i++ {
+					stripCtx(l.Get(i).Message())
+				}
+			}
+		case fd.Message() != nil:
+			stripCtx(v.Message())
+		}
+		return true
+	})
+}
